@@ -1699,7 +1699,8 @@ package stackage
 //@ loop 1 invariant 0 <= i && i <= len(c)
 //@ loop 1 invariant str == symCat(c, i)
 
-//@ func (Stack).SetEncap
+//@ func (Stack).SetEncap @safe
+//@ note safety only, in its own mode so that callers (Encap) keep inlining the body
 //@ tags C18
 //@ safety C18
 //@ requires (r == nil || wf(r)) && okslice(x, alloc)
